@@ -45,6 +45,110 @@ fn row_reached(case: &Case, take: u64, run: &mut dyn FnMut(&Case) -> RunOut) -> 
     a.outcome.is_ok() && b.outcome.is_ok() && a.obs.stdout != b.obs.stdout
 }
 
+/// Strings whose bytes are not UTF-8, correctly quoted (the parser's quote parity survives
+/// them), alone or inside a container: malformed values a prefix may hold.
+const BAD_UTF8_VALUES: &[&[u8]] = &[
+    b"\"caf\xe9\"", b"{\"name\":\"caf\xe9\"}", b"{\"k\xff\":1}", b"[\"\xc3\"]", b"\"\xed\xa0\x80\"", b"{\"s\":\"a\x80b\",\"id\":1}",
+];
+
+/// A pipeline of which the harness knows, from how it is built, that every record of the
+/// tail (TAILS[0] or TAILS[1]: objects with id, g = "a", a non-empty arr) yields at least
+/// one row once `k` values have gone by - whatever the prefix held.
+fn gen_known_pipeline(rng: &mut Rng, unique_ok: bool) -> (Vec<Vec<String>>, bool) {
+    let mut opts: Vec<Vec<String>> = Vec::new();
+    let k = rng.below(4);
+    let mut twin = false;
+    match rng.below(8) {
+        0 => {}
+        1 => opts.push(vec![format!("--filter=(>= &index {k})")]),
+        2 => {
+            opts.push(vec!["--set".into(), format!("min={k}")]);
+            opts.push(vec!["--filter=(>= &index :min)".into()]);
+        }
+        3 => {
+            opts.push(vec!["--split-by=.arr".into()]);
+            opts.push(vec!["--filter=(= ^.g \"a\")".into()]);
+            twin = true;
+        }
+        4 => {
+            opts.push(vec!["--filter=(= .g \"a\")".into()]);
+            twin = true;
+        }
+        5 => {
+            opts.push(vec!["--set".into(), "unused=1".into()]);
+            opts.push(vec![format!("--filter=(>= &index-in-file {k})")]);
+        }
+        6 => {
+            opts.push(vec!["--split-by=.arr".into()]);
+            opts.push(vec![format!("--filter=(>= &index {k})")]);
+        }
+        _ => opts.push(vec!["--only-objects-and-arrays".into()]),
+    }
+    if rng.chance(1, 3) {
+        opts.push(vec!["--select".into(), ".=v".into()]);
+        if rng.chance(1, 2) {
+            opts.push(vec!["--select".into(), "&index=i".into()]);
+        }
+    }
+    if unique_ok && rng.chance(1, 4) {
+        opts.push(vec!["--unique".into()]);
+    }
+    match rng.below(6) {
+        0 => opts.push(vec!["--style=pretty".into()]),
+        1 => opts.push(vec!["--style=one-line".into()]),
+        _ => {}
+    }
+    (opts, twin)
+}
+
+/// For a known pipeline: the T-th row must be there when the prefix is followed by M tail
+/// records. (Only where nothing in front may legitimately end the run: no `panic` policy
+/// with noise in the prefix.)
+fn known_rule(case: &Case, ctx: &mut Ctx) -> Option<Violation> {
+    if case.param("known") != 1 {
+        return None;
+    }
+    let endless = case.endless.as_ref().or_else(|| case.files.iter().rev().find_map(|f| f.endless.as_ref()))?;
+    let take: u64 = case.opts.iter().find_map(|o| o[0].strip_prefix("--take=").and_then(|v| v.parse().ok()))?;
+    let skip: u64 = case
+        .opts
+        .iter()
+        .find_map(|o| o[0].strip_prefix("--skip=").and_then(|v| v.parse().ok()))
+        .unwrap_or(0);
+    let noisy = case.pieces.iter().any(|p| matches!(p.kind, Kind::Garbage | Kind::Raw));
+    if noisy && policy_of(&case.opts) == Policy::Panic {
+        return None;
+    }
+    let m = (2 * (skip + take) + 6) as usize;
+    let mut input = case.stream();
+    for k in 0..m {
+        input.extend_from_slice(&endless.record(k as u64));
+    }
+    let mut bad = false;
+    let reached = row_reached(case, take, &mut |c: &Case| {
+        let r = ctx.exec(ref_spec(c, &input));
+        if !matches!(r.outcome, Outcome::Ok | Outcome::Err(..)) {
+            bad = true;
+        }
+        r
+    });
+    if bad {
+        ctx.jawk_panic = None;
+        return None;
+    }
+    ctx.stats.probe("pipeline whose rows the harness knows by construction");
+    if !reached {
+        return viol(
+            "C14.known-rows",
+            format!(
+                "every record of the tail qualifies by construction, yet the prefix followed by {m} tail records does not give --take={} its last row (skip {skip})",
+                take.max(1)
+            ),
+        );
+    }
+    None
+}
+
 fn strip_limits(opts: &mut Vec<Vec<String>>) {
     opts.retain(|o| !(o[0].starts_with("--take") || o[0].starts_with("--skip") || o[0].starts_with("--limit")));
 }
@@ -122,6 +226,15 @@ impl Property for C14 {
             }
             case.pieces.push(Piece::raw(junk));
         }
+        if rng.chance(1, 8) {
+            // a correctly quoted string whose bytes are not UTF-8, somewhere in the prefix
+            let at = rng.below(case.pieces.len() + 1);
+            let mut v = vec![b'\n'];
+            let b: &[u8] = *rng.pick(BAD_UTF8_VALUES);
+            v.extend_from_slice(b);
+            v.push(b'\n');
+            case.pieces.insert(at, Piece::raw(v));
+        }
         // the prefix must end in a separator so that the tail starts a fresh token
         case.pieces.push(Piece::gap(vec![b'\n']));
         let mut wish = PipeWish::any();
@@ -129,6 +242,14 @@ impl Property for C14 {
         wish.allow_corpus = false;
         let mut pipe = gen_pipe(rng, &wish);
         strip_limits(&mut pipe.opts);
+        let known = rng.chance(1, 3);
+        let mut known_twin = false;
+        if known {
+            let (o, twin) = gen_known_pipeline(rng, true);
+            pipe.opts = o;
+            known_twin = twin;
+            case.set("known", 1);
+        }
         let t = rng.below(6);
         pipe.opts.push(vec![format!("--take={t}")]);
         if rng.chance(1, 2) {
@@ -139,7 +260,9 @@ impl Property for C14 {
         }
         case.opts = pipe.opts;
         case.endless = Some(Endless {
-            template: if rng.chance(2, 3) {
+            template: if known {
+                TAILS[rng.below(2)].to_string()
+            } else if rng.chance(2, 3) {
                 TAILS[0].to_string()
             } else {
                 (*rng.pick(TAILS)).to_string()
@@ -149,6 +272,22 @@ impl Property for C14 {
             // pipeline stops producing rows, and jawk must have stopped at the T-th row
             period: if rng.chance(1, 4) { Some(rng.range(1, 6) as u64) } else { None },
         });
+        if known {
+            let e = case.endless.as_mut().unwrap();
+            if has_opt(&case.opts, "--unique") {
+                e.period = None;
+            } else if rng.chance(1, 2) {
+                // the property's own tail: one value, over and over
+                e.period = Some(1);
+            }
+            if known_twin && rng.chance(1, 2) {
+                // the last value of the prefix is the tail's record with another group: it
+                // does not qualify, the equal-looking values after it do
+                let twin = String::from_utf8_lossy(&e.record(0)).replace("\"g\":\"a\"", "\"g\":\"b\"").replace("\"g\": \"a\"", "\"g\": \"b\"");
+                let at = case.pieces.len() - 1;
+                case.pieces.insert(at, Piece::raw(format!("\n{twin}").into_bytes()));
+            }
+        }
         if on_files && rng.chance(1, 4) {
             // a directory argument holding 2..3 files, every one of them the whole prefix
             // followed by the endless tail: whichever the file system lists first saturates
@@ -204,6 +343,9 @@ impl Property for C14 {
     }
 
     fn check(&self, case: &Case, ctx: &mut Ctx) -> Option<Violation> {
+        if let Some(v) = known_rule(case, ctx) {
+            return Some(v);
+        }
         if case.family == "endless-file" {
             return check_files(case, ctx);
         }
